@@ -480,5 +480,6 @@ MUTANTS = [
     M("kitty-version", KT, "KittyImage.is_supported", "version_tuple >= (0, 20, 0)", "version_tuple >= (0, 21, 0)", {"R5"}),
     M("select-full-timeout", U, "read_tty", "None if timeout < 0 else timeout - duration", "None if timeout < 0 else timeout", {"R6"}),
     M("duration-not-updated", U, "read_tty", "                    input.extend(os.read(_tty_fd, 1))\n                duration = monotonic() - start\n", "                    input.extend(os.read(_tty_fd, 1))\n", {"R6"}),
+    M("name-not-lowered", U, "get_terminal_name_version", "return (name and name.lower(), version)", "return (name, version)", {"R5"}),
     M("twin-lambda-arg", U, "get_cell_size", "more=lambda s: not s.endswith(b\"c\"),", "more=lambda buf: not buf.endswith(b\"c\"),", twin=True),
 ]
